@@ -5,6 +5,7 @@ import (
 	"bytes"
 	"encoding/json"
 	"math"
+	"runtime/debug"
 	"strconv"
 
 	"github.com/VKCOM/tl/pkg/basictl"
@@ -119,6 +120,23 @@ func init() {
 			}
 		}
 		return "ok " + valid + " " + hx(j) + " ok " + eq(a1, b1, ea1, eb1) + " " + eq(aj, bj, eaj, ebj) + " " + t2
+	}
+	// randj <name> <seed>: FillRandom with a scripted source, written boxed; a small stack limit makes the
+	// runaway recursion of F7 (C18) die quickly instead of filling 256 MB first
+	ops["randj"] = func(f []string) string {
+		obj := factory.CreateObjectFromName(f[1])
+		if obj == nil {
+			return "driver-error no object " + f[1]
+		}
+		old := debug.SetMaxStack(8 << 20)
+		defer debug.SetMaxStack(old)
+		seed, _ := strconv.ParseUint(f[2], 10, 64)
+		obj.FillRandom(basictl.NewRandGenerator(&srand{s: seed}))
+		w, err := obj.WriteTL1BoxedGeneral(nil)
+		if err != nil {
+			return "writeerr"
+		}
+		return "ok " + hx(w)
 	}
 	// ffmt <32|64> <bits>: the float-text oracle of the model (strconv is not modelled):
 	// strconv.AppendFloat(nil, v, 'f', -1, bits) of the bit pattern
